@@ -62,9 +62,10 @@ func c09BLSGroup[T any, PT c09Elt[T]](r *verifmc.Run, name string, c *wcurve.Cur
 			r.Eval(1)
 		}
 		n := r.CheckDecoder(verifmc.DecSpec{
-			Entry:  entry,
-			Cases:  c09ToDec(cases),
-			RefAll: r.Thorough(),
+			Entry:      entry,
+			Cases:      c09ToDec(cases),
+			RefAll:     r.Thorough(),
+			AcceptOnly: func(in []byte) bool { return PT(new(T)).SetBytes(in) == nil },
 			Lib: func(in []byte) verifmc.DecResult {
 				keep := c09ref.Clone(in)
 				P := PT(new(T))
